@@ -116,7 +116,8 @@ class Report:
             self.samples.append({"rule": rule, "instance": instance, "discharge": sample})
 
     def fail(self, rule, module, func, node, reason, detail=None, construct=None, nontrivial=True):
-        c = construct if construct is not None else head(node)
+        # a rule may attach a semantic construct to the node it reports (stable under re-spelling of the statement)
+        c = construct if construct is not None else (getattr(node, "_sa_construct", None) or head(node))
         line = getattr(node, "lineno", 0) if node is not None and not isinstance(node, str) else 0
         f = Finding(self.prop, rule, module, func, norm(c), line, reason, detail)
         # one finding per key
